@@ -86,6 +86,8 @@ def build_classes():
             self.confirmations = []
             self.indications = []
             self.iocb_events = []
+            self._held = []
+            self.slow_delay = 0.4
             self.response_payload = b""      # what the server answers with
             self.server_mode = "ack"         # ack | simple | error | silent | reject | abort
             self.raised = []
@@ -122,6 +124,23 @@ def build_classes():
         def _serve(self, apdu):
             mode = self.server_mode
             if mode == "silent":
+                return
+            if mode == "slow-echo":
+                # the application holds the request and answers later (the answers of one batch go out in
+                # REVERSE order of arrival), building each answer from the request object it was handed
+                from bacpypes.task import FunctionTask
+                self._held.append(apdu)
+                if len(self._held) == 1:
+                    def answer_all():
+                        held, self._held[:] = list(self._held), []
+                        for req in reversed(held):
+                            r = self._payload_of(req, "serviceParameters") or b""
+                            y = ConfirmedPrivateTransferACK(context=req)
+                            y.vendorID = 999
+                            y.serviceNumber = 1
+                            y.resultBlock = Any(OctetString(bytes(reversed(r))))
+                            self.app.response(y)
+                    FunctionTask(answer_all).install_task(delta=self.slow_delay)
                 return
             if mode == "echo":
                 # the answer is a function of the request: crossed replies become visible
@@ -190,6 +209,18 @@ def build_classes():
             except Exception as e:
                 self.raised.append((type(e).__name__, str(e)))
             return req
+
+        def send_unconfirmed(self, other):
+            """a unicast Who-Is through the same interface the confirmed requests use"""
+            from bacpypes.apdu import WhoIsRequest
+            req = WhoIsRequest(destination=other.address)
+            try:
+                if isinstance(self.app, ApplicationIOController):
+                    self.app.request_io(IOCB(req))
+                else:
+                    self.app.request(req)
+            except Exception as e:
+                self.raised.append((type(e).__name__, str(e)))
 
         def _iocb_done(self, idx, iocb):
             ev = self.iocb_events[idx]
